@@ -12,12 +12,13 @@ class C09(Prop):
     id = "C09"
     driver = "Env"
     quick_n = 250
-    thorough_n = 8000
+    thorough_n = 20000
     rule = ("ruin stream: leveraged long / short positions in spot and margined contracts (box spaces up to +-5, or "
             "numbers of contracts), price paths that gap adversely by a factor 2..50 at a random step so that NLV "
             "crosses zero before a decision (latent quote), during a step's post-trade events, on the first step or "
             "later; all four reward functions; delays; after the ruin the harness keeps calling step. Non-trivial = "
             "NLV <= 0 reached at some point of the episode; distinct = distinct cases")
+    rule = rule + es.CONTEXT_RULE
     nontrivial_tags = {"ruin-before-decision", "ruin-during-events", "ruin-first-step", "ruin-later"}
     assumptions = [
         "errors are compared as {ok, end-of-episode, rejected}",
@@ -58,6 +59,24 @@ class C09(Prop):
             evs.append(["q", k0, grid[j - 1] + max(1, lat // 2), src[3], src[4]])
         case["events"] = evs
         w = Fraction(-lev if short else lev) * Fraction(rng.randint(6, 8), 8)
+        if rng.random() < 0.25:
+            # exact family: no spread, no fees, a spot contract quoted at 100 and a gap that makes NLV *exactly* 0
+            # (2x long and the price halves, 4x long and -25%, 1x short and the price doubles)
+            L, ruin = rng.choice([(2, "50"), (4, "75"), (-1, "200")])
+            case["contracts"] = [dict(key=k0, kind="ETF")] + case["contracts"][1:]
+            case["fees"] = ["0", "0", "0"]
+            case["space"] = dict(kind="box", low="-5", high="5", keys=keys, asWeights=1, fractional=1, margin="0")
+            evs2 = []
+            for e in evs:
+                if e[0] == "q" and e[1] == k0:
+                    latent_copy = mode == "latent" and lat > 0 and e[2] == grid[j - 1] + max(1, lat // 2)
+                    px = ruin if (e[2] >= grid[j] or latent_copy) else "100"
+                    evs2.append(["q", k0, e[2], px, px])
+                else:
+                    evs2.append(e)
+            case["events"] = evs2
+            w = Fraction(L)
+            case["_exact_zero"] = True
         n = len(grid) + 2
         ops = [["reset", None, 0]]
         for i in range(n):
